@@ -3,6 +3,7 @@ from harness import gen_loc
 from harness.impl_loc import enc_loc
 
 WARM_TWINS = {"quick": 0.02, "thorough": 0.05}      # engine: call-history twins (harness/warm.py)
+DECOY_TWINS = {"quick": 0.03, "thorough": 0.08}     # engine: decoy twins (harness/decoy.py)
 ID = "C04"
 LEAN_MODULE = "BioCantor.Props.C04"
 DESIGN_REF = "4/C04"
@@ -42,6 +43,14 @@ COMP = {"A": "T", "C": "G", "G": "C", "T": "A"}
 def impl(line):
     from harness.impl_lift import impl_lift_op
     return impl_lift_op(line)
+
+
+def decoys(line):
+    """property-specific decoys (engine: harness/decoy.py): the same levels in a hierarchy without its top level and in
+    one with an extra level on top, played before the real line in the same process"""
+    if line.split(" ", 1)[0] in ("lifttype", "liftseq"):
+        return ["@depth-1 " + line, "@depth+1 " + line]
+    return []
 
 
 def nontrivial(line, ans):
